@@ -138,6 +138,17 @@ func GenPath(rt *rapid.T, used []string, maxBytes int, label string) string {
 	return p
 }
 
+// TwinPath returns base with exactly one nibble changed (base must not be empty): the two paths share the nibbles
+// before the drawn position and all nibbles after it.
+func TwinPath(rt *rapid.T, base, label string) string {
+	j := gen.Uniform(rt, 0, len(base)-1, label+"j")
+	nib := "0123456789abcdef"[gen.Uniform(rt, 0, 15, label+"n")]
+	if nib == base[j] {
+		nib = "123456789abcdef0"[strings.IndexByte("0123456789abcdef", nib)]
+	}
+	return base[:j] + string(nib) + base[j+1:]
+}
+
 // GenFixedPath draws a path of exactly nBytes bytes (production shape: no path is a prefix of another).
 func GenFixedPath(rt *rapid.T, nBytes int, label string) string {
 	p := ""
@@ -287,12 +298,7 @@ func GenOpsP(rt *rapid.T, model map[string][]byte, used *[]string, n, maxBytes, 
 			// a twin of a live key: one nibble differs, the rest of the path and the value are the same (two leaves
 			// whose remaining path and value coincide and that differ only by their position)
 			if base := gen.Pick(rt, live, label+"_tb"); len(base) > 0 {
-				j := gen.Uniform(rt, 0, len(base)-1, label+"_tj")
-				nib := "0123456789abcdef"[gen.Uniform(rt, 0, 15, label+"_tn")]
-				if nib == base[j] {
-					nib = "123456789abcdef0"[strings.IndexByte("0123456789abcdef", nib)]
-				}
-				p = base[:j] + string(nib) + base[j+1:]
+				p = TwinPath(rt, base, label+"_t")
 				v = append([]byte(nil), model[base]...)
 			}
 		}
